@@ -5,7 +5,11 @@ package storage
 import (
 	"context"
 
+	"github.com/marekgalovic/anndb/index"
+	"github.com/marekgalovic/anndb/index/space"
+	"github.com/marekgalovic/anndb/math"
 	pb "github.com/marekgalovic/anndb/protobuf"
+	uuid "github.com/satori/go.uuid"
 
 	"github.com/marekgalovic/anndb/verifrt"
 )
@@ -16,20 +20,23 @@ import (
 // answers have symbolic scores; worker failures, the replica choice, the
 // schedule and every select choice are path decisions.
 func VerifC09() {
-	P := verifrt.IntIn("P", 1, verifrt.Bound("maxp", 2))
+	P := verifrt.IntIn("P", verifrt.Bound("minp", 1), verifrt.Bound("maxp", 2))
 	nNodes := verifrt.Bound("nodes", 2)
 	maxItems := verifrt.Bound("items", 2)
 	verifrt.Preemptions(verifrt.Bound("preempt", 0))
 	verifrt.MapOrder(verifrt.Bound("maporder", 0))
 	const local = uint64(1)
 	placement := make([][]uint64, P)
+	spread := verifrt.Bound("spread", 0) == 1 // partition i lives on node 101+i only (one worker per partition)
 	for i := range placement {
+		if spread {
+			placement[i] = []uint64{uint64(101 + i%nNodes)}
+			continue
+		}
 		// replica sets: a path decision among a few shapes
-		switch verifrt.Choose("placement", nNodes+1) {
-		case 0:
-			placement[i] = []uint64{101}
-		case 1:
-			placement[i] = []uint64{102}
+		switch c := verifrt.Choose("placement", nNodes+1); {
+		case c < nNodes:
+			placement[i] = []uint64{uint64(101 + c)}
 		default:
 			placement[i] = []uint64{101, 102}
 		}
@@ -55,8 +62,8 @@ func VerifC09() {
 	requested := make(map[string]int)
 	anyFail := false
 	clients := map[uint64]*verifSearchClient{}
-	for _, node := range []uint64{101, 102} {
-		node := node
+	for ni := 0; ni < nNodes; ni++ {
+		node := uint64(101 + ni)
 		c := &verifSearchClient{node: node}
 		switch verifrt.Choose("fail", verifrt.Bound("failmodes", 3)) {
 		case 1:
@@ -81,7 +88,7 @@ func VerifC09() {
 		_ = failing
 	}
 
-	k := verifrt.IntIn("k", 0, verifrt.Bound("maxk", 2))
+	k := verifrt.IntIn("k", verifrt.Bound("mink", 0), verifrt.Bound("maxk", 2))
 	res, err := ds.Search(context.Background(), []float32{0}, uint(k))
 	verifrt.Reach("searched")
 
@@ -119,6 +126,147 @@ func VerifC09() {
 		for _, s := range all {
 			less += verifrt.B2I(s < item.Score)
 			lessEq += verifrt.B2I(s <= item.Score)
+		}
+		verifrt.Assert(less <= i, "score-not-larger-than-rank-allows")
+		verifrt.Assert(lessEq >= i+1, "score-not-smaller-than-rank-allows")
+	}
+	verifrt.Reach("end")
+}
+
+// VerifC09Cluster: Dataset.Search end to end over two remote nodes that are
+// real Datasets with real local partitions and real indexes: the entry node's
+// search clients call the remote Dataset.SearchPartitions (the service layer
+// in between only converts types). Vectors and the query are solver variables.
+// Replicated partitions hold the same items on both replicas. The answer must
+// be the k best of the whole dataset under the true distances, each item with
+// its true score, no id twice (a replicated partition is consulted on exactly
+// one replica), or an error when a partition id is unknown to the node asked.
+func VerifC09Cluster() {
+	P := verifrt.IntIn("P", 1, verifrt.Bound("maxp", 2))
+	maxItems := verifrt.Bound("items", 2)
+	grid := verifrt.Bound("grid", 15)
+	verifrt.Preemptions(verifrt.Bound("preempt", 0))
+	verifrt.MapOrder(verifrt.Bound("maporder", 0))
+	placement := make([][]uint64, P)
+	for i := range placement {
+		switch verifrt.Choose("placement", 3) {
+		case 0:
+			placement[i] = []uint64{101}
+		case 1:
+			placement[i] = []uint64{102}
+		default:
+			placement[i] = []uint64{101, 102}
+		}
+	}
+	entry := verifDataset(1, 1, placement)
+	remote := map[uint64]*Dataset{101: verifDataset(101, 1, placement), 102: verifDataset(102, 1, placement)}
+	hosts := func(i int, node uint64) bool {
+		for _, n := range placement[i] {
+			if n == node {
+				return true
+			}
+		}
+		return false
+	}
+	newIndex := func() *index.Hnsw {
+		return index.NewHnsw(1, space.NewManhattan(), index.HnswM(2), index.HnswMmax(2), index.HnswMmax0(4),
+			index.HnswEf(2), index.HnswEfConstruction(2), index.HnswLevelMultiplier(1))
+	}
+	// a node that was dropped from a partition's replica set may not have it loaded any more
+	stale := verifrt.Bound("stale", 1) == 1 && verifrt.Choose("one-replica-not-loaded", 2) == 1
+	for node, d := range remote {
+		for i := 0; i < P; i++ {
+			if hosts(i, node) {
+				d.partitions[i].index = newIndex()
+			}
+		}
+	}
+	type item struct {
+		id  uuid.UUID
+		vec float32
+	}
+	var all []item
+	for i := 0; i < P; i++ {
+		n := verifrt.IntIn("nitems", 0, maxItems)
+		for j := 0; j < n; j++ {
+			it := item{id: verifUUID(byte(16*(i+1) + j)), vec: verifrt.F32Grid("vec", 0, grid)}
+			all = append(all, it)
+			for _, d := range remote {
+				if d.partitions[i].index != nil {
+					if d.partitions[i].index.Insert(it.id, math.Vector{it.vec}, nil, 0) != nil {
+						verifrt.Assert(false, "setup-insert-succeeds")
+						return
+					}
+				}
+			}
+		}
+	}
+	if stale {
+		// node 102 does not know partition 0 any more although the entry node's catalogue lists it
+		delete(remote[102].partitionsMap, remote[102].partitions[0].id)
+		verifrt.Tag("replica-not-loaded")
+	}
+	asked102ForP0 := false
+	for node, d := range remote {
+		node, d := node, d
+		c := &verifSearchClient{node: node}
+		c.answer = func(req *pb.SearchPartitionsRequest) ([]*pb.SearchResultItem, int) {
+			pids := make([]uuid.UUID, len(req.GetPartitionIds()))
+			for i, b := range req.GetPartitionIds() {
+				pids[i] = uuid.FromBytesOrNil(b)
+				if node == 102 && pids[i] == entry.partitions[0].id {
+					asked102ForP0 = true
+				}
+			}
+			res, err := d.SearchPartitions(context.Background(), pids, req.GetQuery(), uint(req.GetK()))
+			if err != nil {
+				return nil, 0
+			}
+			out := make([]*pb.SearchResultItem, len(res))
+			for i, r := range res {
+				out[i] = &pb.SearchResultItem{Id: r.Id.Bytes(), Metadata: r.Metadata, Score: r.Score}
+			}
+			return out, -1
+		}
+		entry.searchClients[node] = c
+	}
+	q := verifrt.F32Grid("query", 0, grid)
+	k := verifrt.IntIn("k", 0, verifrt.Bound("maxk", 3))
+	res, err := entry.Search(context.Background(), math.Vector{q}, uint(k))
+	verifrt.Reach("searched")
+	if stale && asked102ForP0 {
+		verifrt.Assert(err != nil, "unknown-partition-on-the-asked-node-means-error")
+	}
+	if err != nil {
+		verifrt.Assert(stale && asked102ForP0, "healthy-cluster-search-succeeds")
+		return
+	}
+	want := k
+	if len(all) < want {
+		want = len(all)
+	}
+	verifrt.Assert(len(res) == want, "returns-min-k-total-items")
+	sp := space.NewManhattan()
+	for i, r := range res {
+		var src *item
+		for j := range all {
+			if all[j].id == r.Id {
+				src = &all[j]
+			}
+		}
+		verifrt.Assert(src != nil, "returned-item-is-stored")
+		if src == nil {
+			continue
+		}
+		verifrt.Assert(r.Score == sp.Distance(math.Vector{q}, math.Vector{src.vec}), "score-is-true-distance")
+		for j := 0; j < i; j++ {
+			verifrt.Assert(res[j].Id != r.Id, "no-id-twice")
+		}
+		less, lessEq := 0, 0
+		for _, it := range all {
+			d := sp.Distance(math.Vector{q}, math.Vector{it.vec})
+			less += verifrt.B2I(d < r.Score)
+			lessEq += verifrt.B2I(d <= r.Score)
 		}
 		verifrt.Assert(less <= i, "score-not-larger-than-rank-allows")
 		verifrt.Assert(lessEq >= i+1, "score-not-smaller-than-rank-allows")
